@@ -99,7 +99,7 @@ func VerifH_C13_KeepAlive() {
 	}
 	ctx, cancel := context.WithCancel(context.Background())
 	parentDeadline := false
-	if verifChoice("parentdeadline", 2) == 1 {
+	if verifParam("parentdeadline", 1) == 1 && verifChoice("parentdeadline", 2) == 1 {
 		// the parent context ends by its own deadline, possibly in the middle of a ping
 		pd := verifNondetDur("parentdeadline")
 		if verifSymbolic() {
